@@ -152,7 +152,11 @@ class DemoWorld(world.World):
 
         def current():
             return {o: call(self.storage.load, o) for o in m.oids()}
+        def older():
+            return {(o, t): call(self.storage.loadBefore, o, t)
+                    for o in m.oids() for t in battery.boundaries(m.tids())}
         pre_cur = current()
+        pre_old = older()
         pre_all = battery.observe(self.storage, m.oids(), m.tids(),
                                   self.flavor, iter_level=0) \
             if not self.packed else None
@@ -176,6 +180,17 @@ class DemoWorld(world.World):
                     self.bad('read', '%s:failed-pack-changed:%s' % (
                         self.kind, q[0][0]), dict(op=op, result=repr(r)[:100]))
             return 'pack-refused:%s' % r.name
+        # a reader whose snapshot is older than the pack: a pack may take
+        # old answers away (no data / key error: the reader retries), it
+        # never turns them into other answers
+        post_old = older()
+        for key in sorted(pre_old):
+            a, b = pre_old[key], post_old[key]
+            if b != a and not (b is None or b == Exc('POSKeyError')):
+                self.bad('read', '%s:pack-changed-old-answer' % self.kind,
+                         dict(op=op, oid=key[0], before_tid=key[1],
+                              was=repr(a)[:120], now=repr(b)[:120]))
+                break
         self.packed = True
         return 'pack'
 
